@@ -63,6 +63,16 @@ fn main() {
         Some("c12-search") => {
             std::process::exit(search::c12_search(args[2].parse().unwrap(), args[3].parse().unwrap()));
         }
+        Some("c11") => {
+            // replay c11 <perm e.g. 1032> <rot> <flop> full <ranges...>
+            let pm: Vec<usize> = args[2].chars().map(|c| c.to_digit(10).unwrap() as usize).collect();
+            let rot: usize = args[3].parse().unwrap();
+            let case = search::IterCase::parse(&args[4..]);
+            match search::check_c11(case.flop, &case.ranges, [pm[0], pm[1], pm[2], pm[3]], rot) { Ok(s) => println!("OK {}", s), Err(s) => { println!("MISMATCH {}", s); std::process::exit(1); } }
+        }
+        Some("c11-search") => {
+            std::process::exit(search::c11_search(args[2].parse().unwrap(), args[3].parse().unwrap()));
+        }
         Some("iter") => {
             // replay iter <c02|c04|c08> <flop> <full|scopes> <ranges...>
             let case = search::IterCase::parse(&args[3..]);
